@@ -121,7 +121,7 @@ class C19(Check):
             'Object counts 0, 1, few, and enough to fill 1..5 read chunks of 64 KiB. non-trivial = >= 2 objects; distinct = hash of the case')
     ASSUMPTIONS = ['orjson / json are trusted as JSON codecs; floats are finite; top-level items are dicts (domain of the property)']
     ANCHORS = ['rxsci/container/json.py', 'rxsci/io/file.py', 'rxsci/framing/line.py', 'rxsci/data/codec.py']
-    REQUIRED_TAGS = ['none', 'gzip', 'zstd', 'stream', 'path', 'fileobj', 'open_obj', 'empty', 'multi-chunk', 'astral', 'whole-document', 'over-1MiB-compressible', 'gzip-ratio>32-over-2MiB', 'pushed-source', 'open_obj-with-short-reads', 'bom']
+    REQUIRED_TAGS = ['none', 'gzip', 'zstd', 'stream', 'path', 'fileobj', 'open_obj', 'empty', 'multi-chunk', 'astral', 'whole-document', 'over-1MiB-compressible', 'gzip-ratio>32-over-2MiB', 'pushed-source', 'open_obj-with-short-reads', 'bom', 'open_obj-stdlib-codec']
     REQUIRED_OBSERVED = ['objects_compared', 'twin_dumps_read_back']
 
     def __init__(self):
@@ -266,6 +266,22 @@ class C19(Check):
                 size = os.path.getsize(path)
                 with open(path, 'rb') as f:
                     got = subscribe(call(J.load_from_file, [('filename', f), ('lines', True), ('skip', 0), ('ignore_error', False), ('encoding', 'utf-8'), ('compression', comp)]), Snap())
+            elif mode == 'open_obj' and len(objs) % 3 == 1:
+                # a stdlib opener as open_obj (formats rxsci has no codec for): the object it returns TRANSFORMS the data, and its
+                # fileno() is that of a file of another size
+                import bz2
+                import gzip as _gzip
+                import lzma
+                opener = [bz2.open, lzma.open, _gzip.open][(len(objs) // 3) % 3]
+                out.tags.append('open_obj-stdlib-codec')
+                path = os.path.join(self._tmpdir(), 'o.bin')
+                if os.path.exists(path):
+                    os.unlink(path)
+                w = subscribe(rx.from_(objs).pipe(call(J.dump_to_file, [('filename', path), ('newline', '\n'), ('encoding', 'utf-8'), ('compression', comp), ('open_obj', opener)])), Snap())
+                if w.err is not None or not w.done:
+                    return out.fail('dump_to_file-failed', error=repr(w.err), done=w.done, open_obj=opener.__module__)
+                size = os.path.getsize(path)
+                got = subscribe(call(J.load_from_file, [('filename', path), ('lines', True), ('skip', 0), ('ignore_error', False), ('encoding', 'utf-8'), ('compression', comp), ('open_obj', opener)]), Snap())
             else:
                 fs = MemFS(short_reads=[None, 1000, 16384, 65535, 7][len(objs) % 5])
                 if fs.short_reads:
